@@ -17,9 +17,9 @@ CHECKS = {
  "C03": ("refinement proof (Lean 4): both Set implementations (map-backed, sync2.Map-backed) refine finite-set algebra; correspondence incl. internal layout",
          "C03.union/intersect/setdiff/symdiff/operands_unchanged/add/remove/addSet_count/removeSet_count/range/len/clone/from*/cartesian proved for any pairing of implementations and any reachable internal layout of the concurrent set (C03.sync_reachable_inv). Tie: programs over mixed handles incl. self-aliased calls, layouts aged and observed via the verif hook.",
          "§8 C03"),
- "C04": ("refinement proof (Lean 4) of the sequential read/dirty/expunged state machine to a map for all call sequences; concurrent half: see level_note",
-         "C04.seq_inv/seq_step/seq_refines/range_seq: every single-goroutine call sequence of Load/Store/LoadOrStore/LoadAndDelete/Delete/Range on the model of map.go (entries with pointer identity, read/dirty/amended/misses, promotion, expunge/unexpunge) returns what map[K]V returns; tie: differential histories with the internal layout compared after every call.",
-         "§8 C04"),
+ "C04": ("refinement proofs (Lean 4): (seq) the read/dirty/expunged state machine refines a map for all call sequences; (conc) forward simulation of the step-level transition system of map.go (one step = one atomic action; any number of goroutines) into a relaxed atomic map whose histories are proved linearizable => linearizability for ALL schedules; Range theorems for all schedules; real step traces replayed label for label in that transition system; atomic sites + hooks regenerated from the source",
+         "C04.conc_linearizable (every execution of the step-level model Model.SyncMapConc - 41 program points = the atomic sites of map.go, any number of goroutines, any operations, every interleaving - has a linearizable Load/Store/LoadOrStore/LoadAndDelete/Delete history), conc_sim_step, conc_inv, conc_no_nil_map_write, conc_lock_exclusive, conc_structure, conc_spec_is_seq_spec; Range under all schedules: conc_range_once (at most once per key), conc_range_value (the value passed for k is k's abstract value at that moment of the call), conc_range_skip, conc_range_snapshot (every key present when the loop starts is in the snapshot), conc_range_todo_held; sequential half: seq_inv/seq_step/seq_refines/seq_abs/range_seq/range_prefix. Tie: (1) step-level traces of the real code under the controlled scheduler (every schedule with <= 2 preemptions of a program catalogue, random programs/schedules; ~900k lines quick, >10M thorough) replayed in Model.SyncMapConc by the judge C04conc (same hook label, step enabled, announced loop key available, equal result); (2) the same executions and native runs judged for the property itself (linearizable + Range predicate) by ObjLin; (3) gen_all_atomic_sites_hooked / gen_sites_are_the_models / model_labels_are_sites about Gen.MapHooks regenerated from map.go on every run; (4) sequential histories with the internal layout compared after every call; (5) the simulation relation evaluated along random runs of the model (C04inv).",
+         '§8 C04, Appendix F.1'),
  "C06": ("refinement proof (Lean 4): pointer-level heap models of list.go / ring.go refine sequence / cycle-partition specs; three-way correspondence with container/list, container/ring",
          "C06.list_refines (all op sequences, under NoInitOnNonEmpty), C06.ring_refines (all op sequences, same-ring Link included), list_wf/ring_wf. Tie: the fork, the standard library and the Lean model+spec run in lock-step on the same histories; a fork-vs-stdlib difference is the counterexample verbatim.",
          "§8 C06"),
@@ -29,9 +29,9 @@ CHECKS = {
  "C08": ("proof (Lean 4) about index kernels regenerated from the Go AST (injectivity, range) + grid refinement of the model; exhaustive small-shape correspondence",
          "C08.idx_inj/idx_lt/row_range/span_range/fill_range are proved about Gen.A2D.* which the extractor regenerates from array2d.go on every run; C08.set_get/set_frame/oob_panics_unchanged/row_live/rowSpan_live/fill_exact/fromJagged/refines_grid about the model, tied by C08.gen_*_eq and by exhaustive correspondence over all shapes 0..5x0..5 with in- and out-of-bounds coordinates.",
          "§8 C08, App. A"),
- "C10": ("invariant proofs (Lean 4) over a transition system of pubsub.go (RWMutex, WaitGroup, channels, sender goroutines, clones): no panic under CloneDiscipline, the clone-after-unsub panic as a proved negation (known finding), Unsub/UnsubAll/WithOnly exactness; event-trace acceptance of subprocess scenarios",
-         "C10.no_panic_partial (all schedules, any subscribers/buffers: no send on / second close of a closed channel, under CloneDiscipline), C10.clone_after_unsub_panics (the unrestricted statement is FALSE of model and code: proved witness, replayed on the implementation, listed in known_findings.json), C10.unsub_exact/_nil/_all, C10.withOnly, C10.wait_complete_partial, C10.sync_exactly_once_in_order_partial(_next). Tie: random scenarios run in subprocesses, event traces accepted by the Lean transition system and checked against history predicates (exactly-once, order, after-removal, error codes, exit status).",
-         "§8 C10"),
+ "C10": ("invariant proofs (Lean 4) over a transition system of pubsub.go (RWMutex, WaitGroup, channels, sender goroutines, clones): no panic under CloneDiscipline, the clone-after-unsub panic as a proved negation (known finding), Unsub/UnsubAll/WithOnly exactness, and the log-level delivery theorems for all schedules (exactly once / in order for Sync, complete for Wait, at most once for async, delivery xor timeout); event-trace acceptance of subprocess scenarios",
+         "C10.no_panic_partial (all schedules, any subscribers/buffers, under CloneDiscipline), clone_after_unsub_panics (the unrestricted statement is FALSE of model and code: proved witness, replayed on the implementation, listed in known_findings.json), unsub_exact/_nil/_all, withOnly; log level, all schedules: log_bookkeeping_ids/_step/_call, sync_exactly_once_in_order (each pair of a returned PubSync/PubSliceSync call exactly once in delivered++timedOut, in publication order, timed out only with a positive timeout), sync_subs_constant, wait_complete, async_at_most_once (each pair at most once, logged only while the channel is still subscribed and open), timeout_exclusive. Tie: random scenarios in subprocesses incl. the families clone-splice (a clone while the parent's list is spliced) and live (every subscriber received from without limit: every call must return, every event - asynchronous ones too - must reach every subscriber that stays subscribed, a deadlock is a verdict); event traces accepted by the Lean transition system and checked against history predicates.",
+         '§8 C10, Appendix F'),
  "C11": ("invariant proof (Lean 4): forward/reverse maps mutually inverse after every op sequence; eviction/removal frame theorems",
          "C11.inverse_inv/add_evicts/remove_both/len_eq_pairs/range_once/contains_agree/clear/clone_eq/refines_spec for all op sequences incl. clones and zero values. Tie: histories over 4x4 universe with full observation after every mutation, exhaustive short histories.",
          "§8 C11"),
@@ -50,9 +50,9 @@ CHECKS = {
  "C16": ("refinement proof (Lean 4): Queue over the heap list model is FIFO, Stack is LIFO, for all interleavings from the zero value",
          "C16.queue_refines/stack_refines/peek_is_next/empty_returns_zero_false_and_stays_usable. Tie: random and exhaustive (length <= 6) interleavings.",
          "§8 C16"),
- "C05": ("proof (Lean 4) at specification level (alternation, counts) + sequential refinement of Set to the spec; concurrent executions: trace acceptance for linearizability (Lean-judged), not proved",
-         "C05.alternate/alternate_from/has_between (for every sequential history of the set specification the successful Add/Remove of a value alternate starting with Add; #okAdd-#okRemove in {0,1} = membership), C05.atomic_seq (Set.Add/Remove/Has are exactly one LoadOrStore/LoadAndDelete/Load), C05.seq_history (sequential runs of the model equal the specification). That concurrent executions linearize to such histories is checked on real executions: every schedule with <= 2 preemptions of a program catalogue under the controlled scheduler, random schedules, native runs (also under -race), each judged by the Lean driver.",
-         "§8 C05"),
+ "C05": ("proofs (Lean 4): every concurrent execution of Add/Remove/Has (= the map calls set.go makes, on the step-level model of map.go) is linearizable to the set specification (corollary of C04.conc_linearizable through a proved specification homomorphism); alternation/counting at specification level; sequential refinement; step-trace acceptance; call shape of Set methods regenerated from the source",
+         'C05.conc_linearizable (all schedules: the Add/Remove/Has history is Linearizable w.r.t. the set specification), conc_alternate (the linearization is a sequential set history in which, per value, successful Adds and Removes alternate starting with an Add and #okAdd - #okRemove in {0,1} = final membership), conc_add_add, conc_add_once, set_transfer, set_hom, calls_have_points, seq_is_srun; specification level: alternate/alternate_from/has_between; atomic_seq, seq_history; gen_add_is_one_loadOrStore/gen_remove_is_one_loadAndDelete/gen_has_is_one_load/gen_map_sites_hooked (regenerated from set.go / map.go every run). Tie: step-level traces of the real Set under the controlled scheduler replayed in Model.SyncMapConc (every Set call must be, label for label, the map call(s) set.go makes; AddSet/RemoveSet in either element order), the same executions and native runs judged for linearizability to the set specification.',
+         '§8 C05, Appendix F'),
  "C09": ("invariant proofs (Lean 4) over a transition system of keyed mutexes on an atomic map: agreement on one mutex per key, mutual exclusion, readers-xor-writer, cross-key independence, try-lock; trace acceptance under a controlled scheduler",
          "C09.agree/mutex/rw/independent/independent_los/independent_free/try/try_held/try_alone/clear_proviso_needed for all schedules, any number of goroutines. Tie: executions of the real KeyedMutex/KeyedRWMutex under the controlled scheduler (all schedules with <= 2 preemptions of a catalogue incl. the first-use race, plus random), API-level traces accepted by the Lean transition system and checked against the occupancy predicate.",
          "§8 C09"),
@@ -70,13 +70,13 @@ CHECKS = {
          "§8 C20"),
 }
 LEVEL_NOTES = {
- "C05": "Proved: specification-level statements and the sequential refinement. NOT proved: that every concurrent execution of sync2.Set linearizes (it rests on sync2.Map's concurrent behaviour); that part is exploration: all schedules within a preemption bound of a fixed program catalogue + random + native, judged by the Lean driver. Data races: race detector observation only.",
- "C09": "The map inside the keyed mutex is modelled as ATOMIC (MapAtomic), justified by C04 whose concurrent half is validated but not proved; sync.Mutex/RWMutex by contract; 'never delays' proved as 'never disables'.",
- "C10": "Proved for all schedules: panic freedom without clones, exactness of Unsub/UnsubAll/WithOnly, per-step forms of wait_complete and sync_exactly_once_in_order. NOT proved: log-level exactly-once for Wait/Sync variants, at-most-once for async variants (checked on real traces by the history predicates), liveness ('eventually'). Known finding: clone-after-unsub panic. Go channels/select/timers/RWMutex/WaitGroup by contract.",
+ "C05": "Proved: linearizability of Add/Remove/Has under every schedule (via C04's concurrent theorem), alternation and counts for the linearization, the specification-level statements, the sequential refinement. AddSet/RemoveSet/Len are not atomic as a whole: their counts are judged on real executions as sequences of element operations inside the call's interval (Len only sanity-bounded). Data races: race detector observation only. Zero-size value pointers share one identity (handled by the model switch zst).",
+ "C09": "The map inside the keyed mutex is modelled as ATOMIC (MapAtomic). C04.conc_linearizable now proves the embedded sync2.Map linearizable under every schedule; replacing a linearizable object by its atomic specification in a client is the standard observational-refinement theorem (Filipovic-O'Hearn-Rinetzky-Yang), which is NOT formalised here. sync.Mutex/RWMutex by contract; 'never delays' proved as 'never disables'. ClearKey is outside the property whenever it overlaps (in real time) another call on its key or the key is held: the judge stops judging such a scenario.",
+ "C10": "Proved for all schedules: panic freedom without clones, exactness of Unsub/UnsubAll/WithOnly, exactly-once/in-order/complete/at-most-once/delivery-xor-timeout at the level of the delivery logs. Distinctness of pairs (count = 1), wait_complete and timeout_exclusive are under CloneDiscipline (they use the no-clone invariant). NOT proved: liveness ('eventually' for Pub/PubSlice; checked on quiescent real executions of the live family only). Known finding: clone-after-unsub panic. Go channels/select/timers/RWMutex/WaitGroup by contract.",
  "C17": "sync.Once is modelled by its algorithm (done flag + mutex); Go memory-model visibility of the result fields is trusted (follows from sync.Once's happens-before).",
  "C18": "atomic.Value and sync.Pool are modelled by contract; race freedom is a theorem about the model's plain-access sets tied to the source by regenerated facts, plus race-detector observation.",
  "C19": "Channels, select, timers, contexts by contract; wall-clock timing is not modelled (a timer is a nondeterministic choice); scenario systems assume the timer cannot fire before the helper first polls its select (promptPoll), the theorems do not.",
- "C04": "Proved: sequential half (all single-goroutine histories, unbounded). NOT proved: the concurrent half. It is checked by exploration only: API-level histories of the real code under the controlled scheduler (all schedules with <= 2 preemptions of a program catalogue, random programs/schedules) and native runs, judged by the Lean driver for linearizability to map[K]V and for the Range predicate; data races: race detector observation. See DESIGN §13 fallback ladder.",
+ "C04": "Proved for all schedules and all single-goroutine histories (unbounded). NOT proved / modelled: data-race freedom in the Go-memory-model sense (the model is sequentially consistent over atomic steps, mutex-protected plain accesses and Unlock merged into the preceding atomic step; races are only observed with the race detector: a report is a violation, silence proves nothing); the trace-level reading of Range's third clause ('untouched for the whole call => visited') follows from conc_range_snapshot + conc_range_todo_held + conc_range_value but is not stated as one theorem; atomic.Value, sync.Mutex, unsafe.Pointer by contract; zero-size value types share one pointer identity (model switch zst, theorems hold for both).",
 }
 REASONS = {}
 
